@@ -1,8 +1,9 @@
 #!/bin/bash
 # Cross-runs every kept seeded change against every check (quick tier) and writes seeded/MATRIX.md:
 # which checks, besides the one of the change's own property, report it.   JOBS=<parallel changes>  WORKERS=<per check>
+# ONLY=<glob of seeded/ names> re-runs a subset and merges it into the existing table.
 HERE="$(cd "$(dirname "${BASH_SOURCE[0]}")/.." && pwd)"; cd "$HERE" || exit 2
-JOBS="${JOBS:-4}"; export WORKERS="${WORKERS:-4}"; export HERE
+JOBS="${JOBS:-4}"; export WORKERS="${WORKERS:-4}"; export HERE; ONLY="${ONLY:-*}"
 mkdir -p .cache/matrix
 one() {
   d="$1"; name="$(basename "$d")"
@@ -20,7 +21,18 @@ one() {
   rm -rf "$tmp"; git -C /repo worktree remove --force "$wt" >/dev/null 2>&1
 }
 export -f one
-ls -d seeded/*/ | sed 's#/$##' | xargs -P "$JOBS" -I{} bash -c 'one {}' | sort > .cache/matrix/matrix.txt
+ls -d seeded/$ONLY/ | sed 's#/$##' | xargs -P "$JOBS" -I{} bash -c 'one {}' | sort > .cache/matrix/new.txt
+# merge with the rows of earlier runs (ONLY=<glob> re-runs a subset)
+touch .cache/matrix/matrix.txt
+python3 - <<'EOM'
+rows = {}
+for fn in ('.cache/matrix/matrix.txt', '.cache/matrix/new.txt'):
+    for l in open(fn):
+        if '|' in l:
+            k, v = l.rstrip('\n').split('|', 1)
+            rows[k] = v
+open('.cache/matrix/matrix.txt', 'w').write(''.join('%s|%s\n' % kv for kv in sorted(rows.items())))
+EOM
 python3 - <<'EOP'
 rows = [l.rstrip('\n').split('|') for l in open('.cache/matrix/matrix.txt') if '|' in l]
 with open('seeded/MATRIX.md', 'w') as f:
